@@ -80,6 +80,7 @@ class ED_Solver(ExactSolver):
                int_tol = self.int_tol)
         prob.ED_driver()
 
+        self.sound = prob.sound
         self.x = prob.ED_profile.x
         self.Fr = prob.C0 * prob.ar * prob.Tref**4 * prob.ED_profile.Fr
         self.Tm = prob.Tref * prob.ED_profile.Tm
@@ -198,6 +199,7 @@ class nED_Solver(ExactSolver):
                int_tol = self.int_tol)
         prob.nED_driver(epsilon = self.epsilon)
 
+        self.sound = prob.sound
         self.x = prob.nED_profile.x
         self.Tm = prob.Tref * prob.nED_profile.Tm
         self.Tr = prob.Tref * prob.nED_profile.Tr
@@ -320,6 +322,7 @@ class Sn_Solver(ExactSolver):
                int_tol = self.int_tol)
         prob.Sn_driver(Sn = self.Sn, f_tol = self.f_tol)
 
+        self.sound = prob.sound
         self.x = prob.Sn_profile.x
         self.Tm = prob.Tref * prob.Sn_profile.Tm
         self.Tr = prob.Tref * prob.Sn_profile.Tr
@@ -424,6 +427,7 @@ class ie_Solver(ExactSolver):
                int_tol = self.int_tol)
         prob.IE_driver()
 
+        self.sound = prob.sound
         self.x = prob.IE_profile.x
         self.Ti = prob.Tref * prob.IE_profile.Ti
         self.Tm = prob.Tref * prob.IE_profile.Tm
